@@ -208,6 +208,20 @@ class Check(PropertyCheck):
                        "observed": repr(got), "required": f"conversion never raises; under the default policy the result is {ref!r}"}
                 break
         rep.cov["conversions_with_warnings_as_errors"] = nw
+        # where the conversion starts: the family a wire byte is read in.  A command's status is a stack status or a
+        # serial-protocol status and stays that from version to version (v4..v13)
+        import ezsptypes as _et
+        inc = _et.legacy_family_inconsistencies()
+        rep.cov["legacy_status_families_consistent_across_versions"] = not inc
+        if inc:
+            name, side, fld, vs = inc[0]
+            odd = [v for v, f in vs.items() if list(vs.values()).count(f) < len(vs) / 2]
+            rep.violation({"input": {"command": name, "schema": side, "field": fld, "families_by_version": vs},
+                           "observed": f"protocol version(s) {odd} read the status byte of {name} in another family than the other versions: "
+                                       f"a stack status such as 0x93 (not joined) then converts to the generic failure instead of its "
+                                       f"unified counterpart ({len(inc)} field(s) affected)",
+                           "required": "the busy / not-joined / not-found / invalid-index / network up-down codes map to their unified counterparts, "
+                                       "whichever protocol version the NCP speaks"}, found_input=True, signature="status:family-by-version")
         if bad:
             rep.violation(bad, found_input=True, signature="status:raises-under-warnings-as-errors")
         rep.cov["exhaustive"] = True
